@@ -37,12 +37,16 @@ TransformGame(g, rel) ==
 
 \* spec-level C13: the semantic functions commute with a presentation change
 ValuesCommute(g, rel) ==
-    LET h == TransformGame(g, rel)
-    IN  /\ \A s \in 1..g.n : ReachValue(h)[rel.pi[s]] = ReachValue(g)[s]
+    LET h   == TransformGame(g, rel)
+        rvg == ReachValue(g)
+        rvh == ReachValue(h)
+        stg == IsStopping(g)
+    IN  /\ \A s \in 1..g.n : rvh[rel.pi[s]] = rvg[s]
         /\ ZeroSet(h) = {rel.pi[s] : s \in ZeroSet(g)}
-        /\ IsStopping(h) = IsStopping(g)
-        /\ (IsStopping(g) =>
-              \A s \in 1..g.n : RewardValue(h, States(h))[rel.pi[s]] = RewardValue(g, States(g))[s])
+        /\ IsStopping(h) = stg
+        /\ (stg => LET wg == RewardValue(g, States(g))
+                       wh == RewardValue(h, States(h))
+                   IN  \A s \in 1..g.n : wh[rel.pi[s]] = wg[s])
 
 -----------------------------------------------------------------------------
 (* relational clauses between the outcome o of the call on description 2   *)
